@@ -818,6 +818,7 @@ func (e *e1) checkPlaylist(s string, x *m3u8x.XMedia, text string, final bool) {
 		}
 	}
 	if ll {
+		var openBodies [][]byte
 		for _, p := range x.Parts {
 			n, ok := checkPartURI(p)
 			if !ok {
@@ -835,6 +836,12 @@ func (e *e1) checkPlaylist(s string, x *m3u8x.XMedia, text string, final bool) {
 				continue
 			}
 			if !e.checkPartMedia(s, p, n, pf, false, bad) && res.Fatal {
+				return
+			}
+			openBodies = append(openBodies, pf.body)
+		}
+		if len(openBodies) == len(x.Parts) && len(openBodies) > 0 && !e.opt.NoDecode {
+			if !e.checkOpenParts(s, openBodies, bad) && res.Fatal {
 				return
 			}
 		}
@@ -1536,3 +1543,45 @@ func (e *e1) probe(s string, x *m3u8x.XMedia, bad func(string, string, ...any) b
 // ---- multivariant (C16) is in e1_multi.go; retention (C18) in e1_retention.go ----
 
 var _ = os.Getenv
+
+// checkOpenParts: the parts of the segment being written decode to a prefix of the units the
+// model holds for its open segment (C01: "and, in Low-Latency mode, the parts").
+func (e *e1) checkOpenParts(s string, bodies [][]byte, bad func(string, string, ...any) bool) bool {
+	open := e.model.Open
+	if open == nil {
+		return true
+	}
+	per := map[int][]DUnit{}
+	for _, b := range bodies {
+		_, units, err := DecodeFMP4(b)
+		if err != nil {
+			bad("C01", "a part of the open segment does not decode: %v", err)
+			return false
+		}
+		for _, u := range units {
+			per[u.TrackID] = append(per[u.TrackID], u)
+		}
+	}
+	for _, ti := range e.tracksOfStream(s) {
+		_, tid := e.cfg.StreamOf(ti)
+		want := open.Units[ti]
+		got := per[tid]
+		if len(got) > len(want) {
+			if bad("C01", "open segment %d track %d: its parts hold %d units, only %d were emitted; extra: %s", open.ID, ti, len(got), len(want), describe(got[len(want)].Payload)) {
+				return false
+			}
+			continue
+		}
+		for k, g := range got {
+			w := want[k]
+			if !bytes.Equal(w.Payload, g.Payload) || g.DTS != w.DTS || g.PTSOff != w.PTSOff || g.Dur != w.Dur || g.Sync != w.Sync {
+				if bad("C01", "open segment %d track %d unit %d: parts hold %s dts/ptsoff/dur/sync %d/%d/%d/%v, expected %s %d/%d/%d/%v", open.ID, ti, k, describe(g.Payload), g.DTS, g.PTSOff, g.Dur, g.Sync, describe(w.Payload), w.DTS, w.PTSOff, w.Dur, w.Sync) {
+					return false
+				}
+				break
+			}
+		}
+		e.res.UnitsDecoded += len(got)
+	}
+	return true
+}
